@@ -1,10 +1,16 @@
 import SlVerif.Drv.Gf128
 import SlVerif.Drv.Matrix
 import SlVerif.Drv.Math
+import SlVerif.Drv.Paillier
 import SlVerif.Drv.Relay
 import SlVerif.Drv.Buffered
 import SlVerif.Drv.OracleIO
 import SlVerif.Drv.Dlog
+import SlVerif.Drv.VerEnc
+import SlVerif.Drv.Endemic
+import SlVerif.Drv.Pprf
+import SlVerif.Drv.Bip32
+import SlVerif.Drv.SoftSpoken
 /-
   sldriver: line-protocol server around the executable models.
   request:  `<ns> <op> <args…>`           (one line)
@@ -18,9 +24,15 @@ def dispatch (O : Query → IO Bytes) (toks : List String) : IO String := do
   | "gf" :: rest => pure ((Drv.Gf.handle rest).getD "!bad-op")
   | "mat" :: rest => pure ((Drv.Matrix.handle rest).getD "!bad-op")
   | "math" :: rest => pure ((Drv.Math.handle rest).getD "!bad-op")
+  | "pai" :: rest => pure ((Drv.Paillier.handle rest).getD "!bad-op")
   | "relay" :: rest => pure ((Drv.Relay.handle rest).getD "!bad-op")
   | "buf" :: rest => pure ((Drv.Buffered.handle rest).getD "!bad-op")
   | "dlog" :: rest => do pure ((← Drv.Dlog.handle O rest).getD "!bad-op")
+  | "eot" :: rest => do pure ((← Drv.Endemic.handle O rest).getD "!bad-op")
+  | "pprf" :: rest => do pure ((← Drv.Pprf.handle O rest).getD "!bad-op")
+  | "ss" :: rest => do pure ((← Drv.SoftSpoken.handle O rest).getD "!bad-op")
+  | "bip32" :: rest => do pure ((← Drv.Bip32.handle O rest).getD "!bad-op")
+  | "venc" :: rest => do pure ((← Drv.VerEnc.handle O rest).getD "!bad-op")
   | ["ping"] => pure "pong"
   | _ => pure "!bad-op"
 
